@@ -83,9 +83,9 @@ pub fn check_isolation(case: &C11Case, tr: &Trace) -> Result<Vec<&'static str>, 
         let id = ids[k];
         let src = p.file.as_ref().map(|f| f.bytes()).unwrap_or_default();
         for (who, e) in [("receiver", p.to), ("sender", p.from)] {
-            for (t, f) in tr.finished_inds(e, id) {
+            for (idx, t, f) in tr.finished_inds_idx(e, id) {
                 if is_success(f) {
-                    let snap = tr.snaps.iter().find(|s| s.entity == e && s.put == k && s.t == t);
+                    let snap = tr.snap_for(idx);
                     match snap.and_then(|s| s.content.as_ref()) {
                         Some(c) if *c == src => {}
                         other => {
